@@ -80,6 +80,7 @@ func (SupplyMonitor) Post(e *Explorer, before, w *World, pre interface{}, ev *Ev
 			msgs = ev.Msgs(before)
 		}
 		lo, hi := math.ZeroInt(), math.ZeroInt() // allowed interval for Δ
+		newlyClaimed := map[uint64]bool{}
 		for _, m := range msgs {
 			switch x := m.(type) {
 			case *oracletypes.MsgTip:
@@ -92,6 +93,9 @@ func (SupplyMonitor) Post(e *Explorer, before, w *World, pre interface{}, ev *Ev
 					if i >= len(x.Indices) {
 						break
 					}
+					if before.SupplyClaimed[id] || newlyClaimed[id] {
+						continue // a deposit adds its amount to the supply once
+					}
 					qid, _ := before.App.BridgeKeeper.GetDepositQueryId(id)
 					agg, _, err := before.App.OracleKeeper.GetAggregateByIndex(before.Ctx, qid, x.Indices[i])
 					if err != nil || agg == nil {
@@ -100,6 +104,7 @@ func (SupplyMonitor) Post(e *Explorer, before, w *World, pre interface{}, ev *Ev
 					if amt, _, ok := refAmountTip(agg.AggregateValue); ok {
 						a := math.NewIntFromBigInt(new(big.Int).Div(amt, big.NewInt(1e12)))
 						lo, hi = lo.Add(a), hi.Add(a)
+						newlyClaimed[id] = true
 					}
 				}
 			case *disputetypes.MsgWithdrawFeeRefund:
@@ -112,6 +117,16 @@ func (SupplyMonitor) Post(e *Explorer, before, w *World, pre interface{}, ev *Ev
 		}
 		if delta.LT(lo) || delta.GT(hi) {
 			fail("tx-supply-delta", fmt.Sprintf("accepted tx changed supply by %s, statement allows [%s,%s]", delta, lo, hi))
+		}
+		if len(newlyClaimed) > 0 {
+			nc := map[uint64]bool{}
+			for k := range before.SupplyClaimed {
+				nc[k] = true
+			}
+			for k := range newlyClaimed {
+				nc[k] = true
+			}
+			w.SupplyClaimed = nc
 		}
 	case "block":
 		// independent mint clock (kept by World.Block / World.Tx, not read from the chain's minter): minting starts
